@@ -173,6 +173,9 @@ def handle (op : String) (args : List String) : Except String String :=
   | "g4paths" => pure (showBytesList Generated.expandedScalars ++ " " ++ showBytesList Generated.expandedSlices
       ++ " " ++ showBytesList Generated.expandedContents)
   | "g5paths" => pure (showBytesList (Generated.keyPaths.map (fun p => p.1 ++ [58] ++ p.2)))
+  | "c13merge" => do
+    let (base, ov) ← run1 (do let b ← pLeaves; let o ← pLeaves; pure (b, o)) args
+    pure (showLeaves (mergeLeaves base ov))
   | "configpaths" => do
     let plan ← run1 (pList pContentOut) args
     pure (showBytesList (Spec.configPaths plan))
